@@ -12,17 +12,23 @@ class InjectedFault(Exception):
 
 
 class Ticker:
-    __slots__ = ("n", "fault_at", "fired", "log")
+    __slots__ = ("n", "fault_at", "fired", "log", "reenter_at", "reenter_fn", "reentered")
 
     def __init__(self, fault_at=None):
         self.n = 0
         self.fault_at = fault_at
         self.fired = None      # kind of the protocol call that was failed
         self.log = []          # kinds of protocol calls seen (bounded)
+        self.reenter_at = None
+        self.reenter_fn = None
+        self.reentered = False
 
     def tick(self, kind):
         k = self.n
         self.n += 1
+        if self.reenter_at is not None and k == self.reenter_at and self.reenter_fn is not None:
+            self.reentered = True
+            self.reenter_fn()
         if len(self.log) < 64:
             self.log.append(kind)
         if self.fault_at is not None and k == self.fault_at:
